@@ -10,9 +10,11 @@
     that were handed to the endpoint; each owed packet (ack-eliciting, authenticated, new
     largest in its space, after handshake completion for 1-RTT) is covered by an ACK in the
     first transmission at or after arrival + 25 ms, the endpoint always asks for a timer in
-    time, and in Initial/Handshake by the next transmission in that space.
+    time, and in Initial/Handshake by the next transmission in that space.  Connections through a Retry and
+    resumed sessions (0-RTT packets in the application space, accepted or rejected) are part of the scripts.
 """
 import json
+import os
 import random
 
 from .. import trace
@@ -23,7 +25,7 @@ _A = None
 
 
 def job_fn(job):
-    s = script.run(_A, job["cfg"], job["script"], seed=job["seed"], hs_adv=job["hs_adv"])
+    s = script.run(_A, job["cfg"], job["script"], seed=job["seed"], hs_adv=job["hs_adv"], early=job.get("early"))
     lines = project.acktracker(s.log)
     arr = [(e["ep"], e["space"], e["pn"]) for e in s.log if e["k"] == "arr"]
     ooo = any(a[0] == b[0] and a[1] == b[1] and b[2] < a[2] for a, b in zip(arr, arr[1:]))
@@ -31,7 +33,33 @@ def job_fn(job):
                    any(f["t"] == "ack" for p in s.emitted.get(e["dg"], []) if p.get("ok") for f in p.get("frames", []))
                    for e in s.log)
     return {"lines": lines, "nontrivial": bool(ooo or lost_ack), "raised": s.raised[:3],
-            "acks": sum(len(l["acks"]) for l in lines if l["ev"] == "tx")}
+            "acks": sum(len(l["acks"]) for l in lines if l["ev"] == "tx"),
+            "zrtt": sum(1 for e in s.log if e["k"] == "pkt" and e["type"] == "0rtt"),
+            "zrtt_arr": sum(1 for e in s.log if e["k"] == "arr" and e["type"] == "0rtt"),
+            "zrtt_arr_keys": sum(1 for e in s.log if e["k"] == "arr" and e["type"] == "0rtt" and e["haskeys"]),
+            "retries": s.retry["sent"]}
+
+
+def zrtt_jobs(rnd, per):
+    """Retry and resumed sessions: 0-RTT packets share the application packet number space; the server holds their
+    keys only between the ClientHello and the end of the handshake (never, when it rejects early data)."""
+    jobs = []
+    for mode in script.ZRTT_MODES:
+        for prof in ("lossy", "dup", "mixed"):
+            for i in range(per):
+                cfg = dict({"cc": rnd.choice(["reno", "cubic"]), "version": rnd.choice(["v1", "v2", "v1->v2"])}, **mode)
+                jobs.append({"cfg": cfg, "script": script.random_script(rnd, rnd.choice([20, 50, 90]), script.PROFILES[prof]),
+                             "seed": rnd.randrange(1 << 30), "hs_adv": rnd.random() < 0.6, "early": script.random_early(rnd),
+                             "profile": "zrtt-" + prof})
+    early = [["write", "c", 0, 3000, False], ["write", "c", 2, 20, True]]
+    for mode in script.ZRTT_MODES:
+        # 0-RTT packets arriving out of order with a gap, one of them before the ClientHello, a duplicate after the
+        # handshake; then the acknowledgement of the lot is lost
+        jobs.append({"cfg": dict(mode), "script": [["deliver", 2], ["deliver", 0], ["dup", 1], ["deliver", 1], ["deliver", 0], ["deliver", 0],
+                                                   ["deliver", 0], ["deliver", 0], ["timer", "s"], ["drop", 0], ["write", "c", 0, 10, True],
+                                                   ["deliver", 0], ["late", "s", 30000]],
+                     "seed": 51, "hs_adv": True, "early": early, "profile": "corpus-zrtt-gap-dup-lost-ack"})
+    return jobs
 
 
 def judge(check, jobs, results, name):
@@ -51,6 +79,9 @@ def judge(check, jobs, results, name):
         seen.add((ji, clause))
         ln = lines[i]
         sig = "ack:%s:ep=%s" % (clause, ln.get("ep"))
+        mode = jobs[ji]["cfg"]
+        if mode.get("retry") or mode.get("resume"):
+            sig += ":" + "+".join((["retry"] if mode.get("retry") else []) + (["resume-" + mode["resume"]] if mode.get("resume") else []))
         detail = {"clause": clause, "line": ln, "job": jobs[ji]}
         (check.drift if clause.startswith("model:") else check.violation)(sig, detail)
 
@@ -88,7 +119,13 @@ def run(check):
     jobs.append({"cfg": {}, "script": [["write", "c", 0, 3000, False], ["deliver", 2], ["deliver", 0], ["tick", 30000], ["deliver", 0],
                                        ["timer", "s"], ["drop", 0], ["write", "c", 0, 10, True], ["deliver", 0], ["late", "s", 30000]],
                  "seed": 1, "hs_adv": False, "profile": "corpus-gap-lost-ack"})
+    jobs += zrtt_jobs(rnd, 1 if check.quick else 20)
     results = runner.run_many(job_fn, jobs)
+    check.cov["zero_rtt_packets_on_the_wire"] = sum(r["zrtt"] for r in results)
+    check.cov["zero_rtt_packets_arrived"] = sum(r["zrtt_arr"] for r in results)
+    check.cov["zero_rtt_packets_arrived_with_keys"] = sum(r["zrtt_arr_keys"] for r in results)
+    check.cov["retry_packets_sent"] = sum(r["retries"] for r in results)
+    check.cov["retry_or_resumed_runs"] = sum(1 for j in jobs if j["cfg"].get("retry") or j["cfg"].get("resume"))
     judge(check, jobs, results, "TraceAckTracker_V")
     for job, res in zip(jobs, results):
         check.count(repr(job), nontrivial=res["nontrivial"], evaluations=len(res["lines"]))
